@@ -267,14 +267,24 @@ Definition top_choice_ok (c : schoice) : bool :=
   end.
 
 (* the lines of an @py: body as written: none is white space only, the first non-empty one starts at column 0,
-   none closes the block *)
+   none closes the block or looks like a comment / directive line (inside an @for body the loop extractor
+   looks at every line before the Python extractor does) *)
 Definition py_line_ok (l : string) : bool :=
-  (negb (nonempty l) || negb (all_space l)) && negb (String.eqb (strip l) "@endpy").
+  (negb (nonempty l) || negb (all_space l)) && negb (String.eqb (strip l) "@endpy") &&
+  negb (startswith (strip l) "#") && negb (startswith (strip l) "@") && negb (startswith (strip l) "<").
 Definition py_ok (c : string) : bool :=
   let ls := split_char c nlc in
   forallb py_line_ok ls && match base_indent ls with Some 0 => true | None => true | _ => false end.
 
 Definition cond_header_ok (c : string) : bool := nonempty c && trimmed c.
+
+(* nesting of @if / @for blocks (the compiler stops at MAX_BLOCK_DEPTH = 100) *)
+Fixpoint block_height (it : item) : nat :=
+  match it with
+  | IIf brs => S (list_max (map (fun b => match b with (_, body, _) => list_max (map block_height body) end) brs))
+  | IFor _ _ body _ => S (list_max (map block_height body))
+  | _ => 0
+  end.
 
 Section ItemOk.
 Variable pp : pyparse.
@@ -353,7 +363,7 @@ Variable is_call : string -> bool.
 
 Definition passage_ok (p : spassage) : bool :=
   header_ok (sp_name p) (sp_params p) &&
-  forallb (item_ok pp true) (sp_body p) &&
+  forallb (item_ok pp true) (sp_body p) && forallb (fun it => Nat.leb (block_height it) 100) (sp_body p) &&
   forallb (fun x => top_choice_ok (snd x)) (sp_choices p) &&
   sections_ok (sp_body p) 0 (sp_choices p).
 
